@@ -12,6 +12,8 @@ pub enum PingFault {
     /// echo the value of the previous PING seen on this server instead
     Stale,
     Wrong,
+    /// a well-known reply that is not the echo (index into NAMED_REPLIES; even = bulk string, odd = simple string)
+    Named(u8),
     /// something that is not the value at all: 0 = nil, 1 = empty string, 2 = an array holding the value,
     /// 3 = the value followed by a second, unrequested reply
     Shape(u8),
@@ -24,6 +26,9 @@ pub enum PingFault {
     /// never answer
     Silence,
 }
+
+/// What servers and proxies answer to other commands (or to a PING without argument).
+pub const NAMED_REPLIES: &[&str] = &["PONG", "pong", "OK", "QUEUED", "0", "1", "-1", "true", "PING"];
 
 /// Error replies with the codes redis-rs maps to its own error kinds: every one of them is "an error reply".
 pub const ERROR_REPLIES: &[&str] = &[
@@ -100,6 +105,9 @@ pub async fn start(port: u16) -> std::io::Result<(Arc<RServer>, u16, tokio::task
     let h = tokio::spawn(async move {
         loop {
             let Ok((s, _)) = listener.accept().await else { break };
+            // replies are written one command at a time: without this the second reply of a pipeline waits
+            // for the peer's delayed ACK (40 ms)
+            let _ = s.set_nodelay(true);
             let st = Arc::new(Mutex::new(RConn::default()));
             let k = {
                 let mut c = srv.conns.lock().unwrap();
@@ -197,6 +205,18 @@ async fn serve(mut s: TcpStream, k: usize, st: Arc<Mutex<RConn>>, server: Arc<RS
                                 _ => format!("{}.0", v),
                             };
                             out.extend(bulk(&l))
+                        }
+                        Some(PingFault::Named(k)) => {
+                            let mut name = NAMED_REPLIES[(k as usize / 2) % NAMED_REPLIES.len()];
+                            if Some(name) == val.as_deref() {
+                                // "0" or "1" may be the very value that was sent: that would be the echo
+                                name = "PONG";
+                            }
+                            if k % 2 == 0 {
+                                out.extend(bulk(name))
+                            } else {
+                                out.extend(format!("+{}\r\n", name).as_bytes())
+                            }
                         }
                         Some(PingFault::Shape(k)) => {
                             let v = val.clone().unwrap_or_default();
